@@ -1,5 +1,5 @@
 (* C17 - executable model of /repo/src/sc_options.c (with the repairs bb105d5, 5b6f754, ede139e, 69d3f48,
-   5918853, 6404e3e), of the ini reader /repo/iniparser/iniparser.c + dictionary.c as far as
+   5918853, 6404e3e, 5a6ac04), of the ini reader /repo/iniparser/iniparser.c + dictionary.c as far as
    sc_options uses it, and of sc_keyvalue_get_int_check.  Definitions only; proofs are in
    NumProofs.v / IniProofs.v / OptionsProofs.v / GetoptProofs.v.
 
@@ -199,7 +199,7 @@ Definition ini_line (input : str) : line_status :=
         end
       else
         match take_while (ne cEQ) line, drop_while (ne cEQ) line with
-        | _ :: _ as k, _ :: rest => LValue (strlwc (strstrip k)) (ini_value rest)
+        | (_ :: _) as k, _ :: rest => LValue (strlwc (strstrip k)) (ini_value rest)
         | _, _ => LError
         end
   end.
@@ -330,6 +330,7 @@ Fixpoint fs_get (fs : list (str * list Z)) (n : str) : option (list Z) :=
   match fs with [] => None | (k, x) :: r => if str_eqb k n then Some x else fs_get r n end.
 
 Definition R_CRASH : Z := -99.                 (* the C code would dereference NULL *)
+Definition R_SHORT : Z := -98.                 (* the recorded getopt stream ended before the loop did *)
 
 (* ------------------------------------------------------------------------------------------
    getopt_long as seen by sc_options_parse *)
@@ -562,7 +563,7 @@ Definition load_args (w : world) (o : nat) (file : str) : Z * world :=
               let '(l, ok) := load_args_loop d (Z.to_nat cnt) 0 in
               let ob := get_opts w o in
               ((if ok then 0 else -1), set_opts w o (mkOpts (o_items ob) 0 l true))
-          | Some None => (R_CRASH, w)          (* "[Arguments:count]" heading: strtol (NULL) *)
+          | Some None => (-1, w)               (* "[Arguments:count]" heading: NULL value = not found (5a6ac04) *)
           | None => (-1, w)
           end
       end
@@ -651,10 +652,10 @@ Definition apply_item (w : world) (o : nat) (k : nat) (it : item) (arg : option 
   end.
 
 (* the getopt loop: consumes the events libc produced; (retval, world, events left over).
-   retval 1 = the recorded stream ended before the loop did (cannot happen for a faithful record) *)
+   retval R_SHORT = the recorded stream ended before the loop did (cannot happen for a faithful record) *)
 Fixpoint parse_loop (w : world) (o : nat) (evs : list gevent) : Z * world * list gevent :=
   match evs with
-  | [] => (1, w, [])
+  | [] => (R_SHORT, w, [])
   | GEnd :: r => (0, w, r)
   | GErr _ :: r => (-1, w, r)
   | ev :: r =>
@@ -682,7 +683,7 @@ Definition parse (w : world) (o : nat) (evs : list gevent) (optind_end : Z) (arg
   let '(rc, w', rest_evs) := parse_loop w o evs in
   let ob := get_opts w' o in
   let first := if rc <? 0 then -1 else optind_end in
-  let ret := if rc =? R_CRASH then R_CRASH else first in
+  let ret := if (rc =? R_CRASH) || (rc =? R_SHORT) then rc else first in
   (ret, set_opts w' o (mkOpts (o_items ob) first (map Some argv_end) false), rest_evs).
 
 (* ---- declarations ------------------------------------------------------------------------ *)
